@@ -278,6 +278,41 @@ def run(world, rep, tier, only=None):
         rep.ob("C02.i", site(cd, "all groups reserved before the first location is tested#%d" % i), hb is not None and not mixed,
                "the loop around ext2fs_reserve_super_and_bgd() contains no test of the map: %s" % [t_.line for t_ in mixed[:3]])
 
+    # ------------------------------------------------------------------ C02.j a walk towards the root does not mistake its own trail for checked ground
+    # check_directory() climbs from a directory to its parents until it meets one already known to be connected
+    # (inode_done_map) and falls back to loop detection when the climb gets too long.  If the climb marks the map as it
+    # goes and leaves on "was marked", a cycle of directories that hangs on nothing ends the climb at its own first
+    # step, the loop detector is never reached, and the run is clean.  In the loop that climbs (the one holding the
+    # switch to the loop pass), the map is only tested; it is marked after the climb.
+    cdf = prog.fn("check_directory", "e2fsck/pass3.c")
+    sw = [n for n in cdf.events("S") if T.path(n.ev["lhs"]) == "loop_pass" and T.const(n.ev.get("rhs")) == 1]
+    rep.floor("C02.j switch to the loop pass in check_directory", len(sw), 1)
+    for i, n in enumerate(sw):
+        hb = loop_head(cdf, n)
+        body = natural_loops(cdf).get(hb, set()) if hb is not None else set()
+        marks_in = []
+        for m in body:
+            exprs = []
+            if m.ev and m.ev["e"] == "C":
+                exprs.append(m.ev["x"])
+            lit = cdf.literal(m.bid) if m is cdf.block_end(m.bid) else None
+            if lit:
+                exprs += T.calls(lit[0])
+            for cc in exprs:
+                if cc.get("fn") == "ext2fs_mark_inode_bitmap2" and "inode_done_map" in T.vars_in((cc.get("a") or [{}])[0] or {}):
+                    marks_in.append(m)
+        tests_in = [m for m in body if cdf.literal(m.bid) and m is cdf.block_end(m.bid) and
+                    any(cc.get("fn") == "ext2fs_test_inode_bitmap2" and "inode_done_map" in T.vars_in((cc.get("a") or [{}])[0] or {})
+                        for cc in T.calls(cdf.literal(m.bid)[0]))]
+        rep.ob("C02.j", site(cdf, "the climb tests the done map and does not mark it#%d" % i), bool(tests_in) and not marks_in,
+               "loop holding `loop_pass = 1`: tests of inode_done_map: %d, marks of it: %s" % (len(tests_in), [m.line for m in marks_in]))
+        after = [m for m in calls_to(cdf, "ext2fs_mark_inode_bitmap2") if "inode_done_map" in T.vars_in(arg(m, 0) or {}) and m not in body] + \
+            [cdf.block_end(b) for b in cdf.blocks if cdf.literal(b) and cdf.block_end(b) not in body and
+             any(cc.get("fn") == "ext2fs_mark_inode_bitmap2" and "inode_done_map" in T.vars_in((cc.get("a") or [{}])[0] or {})
+                 for cc in T.calls(cdf.literal(b)[0]))]
+        rep.ob("C02.j", site(cdf, "what the climb passed is marked done afterwards#%d" % i), bool(after),
+               "ext2fs_mark_inode_bitmap2(inode_done_map, …) outside the climbing loop: %s" % [m.line for m in after])
+
 
 def _aborts_after(prog, fn, n):
     """every path from the call to the function's exit passes ctx->flags |= E2F_FLAG_ABORT or a noreturn call"""
